@@ -31,6 +31,12 @@ def _c01_extra(repo, reg, tier):
     return bounded_extra(repo, reg, tier)
 
 
+def _rowiter_scan(repo, reg, tier):
+    from contracts.rowiter import attribute_scan
+
+    return attribute_scan(repo, reg, tier)
+
+
 PROPS: dict[str, dict] = {
     "C12": {
         "modules": ["sqlexpr"],
@@ -46,7 +52,7 @@ PROPS: dict[str, dict] = {
         # "independent of any merging, elision or reordering the library performed while the tree was being built":
         # the construction-time merging contracts (Slice.then, Sort.then, simplify, _finish_apply) are part of this check
         "depends": ["C05"],
-        "extra": [_c01_extra],
+        "extra": [_c01_extra, _rowiter_scan],
         "assumptions": ["leaf payloads are re-iterable and hold the leaf's rows; iteration-engine leaves always carry a payload",
                         "law library spec/laws.py (status per law in coverage.law_library)",
                         "independence of merging/elision/reordering at construction time is C05 (UnaryOperation._finish_apply) and C03 (backtracking)"],
@@ -116,7 +122,8 @@ PROPS: dict[str, dict] = {
         "explanation": "Diagnostics.run: doomed implies no rows; with a truthful executor doomed iff no rows; doomed verdicts carry a message",
     },
     "C19": {
-        "modules": ["names"],
+        "modules": ["names", "c20"],
+        "closure": False,  # get_relation_name / LeafRelation.__post_init__ / Engine.materialize are the whole name path
         "assumptions": ["uuid.uuid4() returns a value never issued before (probabilistic in reality: collision probability 2^-122); .hex has 32 characters",
                         "thread interleavings are not explored: the postcondition of a call depends only on that call's own uuid, not on the shared counter, so it holds under every schedule"],
         "explanation": "name = prefix ... hex(this call's uuid4); names with different 32-character suffixes differ",
